@@ -310,6 +310,7 @@ type htlcWorkload struct {
 	GenesisBorn int
 	GenesisBase int64
 	genBorn     []*htBook
+	delisted    []htlctypes.AssetParam // assets the delist script took off the parameter list, to be put back
 }
 
 func (w *htlcWorkload) SetQuiet() { w.shared = true }
@@ -1650,6 +1651,21 @@ func (w *htlcWorkload) Next(block int) []rig.Tx {
 			txs = append(txs, tx)
 		}
 	}
+	// every 40 blocks the asset with the most outgoing value in flight is taken off the parameter list altogether (its
+	// supply record stays) and put back eight blocks later: transfers of it that expire meanwhile must still be
+	// refunded and released in full
+	if !w.shared && (block%40 == 30 || block%40 == 38) {
+		if tx, ok := w.delist(st, block%40 == 38); ok {
+			txs = append(txs, tx)
+		}
+	}
+	// on the multi-module chains the authority empties the asset list altogether every 50 blocks and restores it four
+	// blocks later (the begin blocker has nothing to update meanwhile)
+	if w.shared && (block%50 == 30 || ((block%50 >= 34 || block%50 < 30) && len(w.delisted) > 0)) {
+		if tx, ok := w.delistAll(st, block%50 != 30); ok {
+			txs = append(txs, tx)
+		}
+	}
 	n := 1 + w.rng.Intn(3)
 	for i := 0; i < n; i++ {
 		if len(w.script) > 0 && (i == 0 || w.rng.Intn(2) == 0) {
@@ -1698,6 +1714,91 @@ func (w *htlcWorkload) flipActive(st *htState, on bool) (rig.Tx, bool) {
 	acc, ok := w.pickAcc()
 	if !changed || !ok {
 		return rig.Tx{}, false
+	}
+	for _, x := range p.AssetParams {
+		w.touched[x.Denom] = true
+	}
+	return w.r.InjectRoute(w.r.Acc(acc), &htTag{Kind: "params", Note: note}, &htlctypes.MsgUpdateParams{Authority: w.r.GovAddr.String(), Params: p}), true
+}
+
+// delist removes the listed asset with the largest recorded outgoing supply from the parameters (back == false), or
+// appends the assets removed this way again (back == true).
+func (w *htlcWorkload) delist(st *htState, back bool) (rig.Tx, bool) {
+	p := htlctypes.Params{AssetParams: append([]htlctypes.AssetParam{}, st.params.AssetParams...)}
+	note := "delist-busiest-outgoing"
+	if back {
+		note = "relist"
+		if len(w.delisted) == 0 {
+			return rig.Tx{}, false
+		}
+		for _, a := range w.delisted {
+			dup := false
+			for _, x := range p.AssetParams {
+				dup = dup || x.Denom == a.Denom
+			}
+			if !dup {
+				p.AssetParams = append(p.AssetParams, a)
+			}
+		}
+		w.delisted = nil
+	} else {
+		if len(p.AssetParams) < 2 {
+			return rig.Tx{}, false
+		}
+		best, bestAmt := -1, new(big.Int)
+		for i, a := range p.AssetParams {
+			sup, ok := st.sup[a.Denom]
+			if !ok {
+				continue
+			}
+			if amt := bi(sup.OutgoingSupply.Amount); best < 0 || amt.Cmp(bestAmt) > 0 {
+				best, bestAmt = i, amt
+			}
+		}
+		if best < 0 {
+			return rig.Tx{}, false
+		}
+		w.delisted = append(w.delisted, p.AssetParams[best])
+		p.AssetParams = append(p.AssetParams[:best:best], p.AssetParams[best+1:]...)
+	}
+	acc, ok := w.pickAcc()
+	if !ok {
+		return rig.Tx{}, false
+	}
+	for _, x := range st.params.AssetParams {
+		w.touched[x.Denom] = true
+	}
+	for _, x := range p.AssetParams {
+		w.touched[x.Denom] = true
+	}
+	return w.r.InjectRoute(w.r.Acc(acc), &htTag{Kind: "params", Note: note}, &htlctypes.MsgUpdateParams{Authority: w.r.GovAddr.String(), Params: p}), true
+}
+
+// delistAll stores an empty asset list (back == false) or the list that was in force before (back == true).
+func (w *htlcWorkload) delistAll(st *htState, back bool) (rig.Tx, bool) {
+	var p htlctypes.Params
+	note := "delist-every-asset"
+	if back {
+		if len(st.params.AssetParams) > 0 { // the list is back (or never went)
+			w.delisted = nil
+		}
+		if len(w.delisted) == 0 {
+			return rig.Tx{}, false
+		}
+		note = "relist-every-asset"
+		p.AssetParams = w.delisted
+	} else {
+		if len(st.params.AssetParams) == 0 || len(w.delisted) > 0 {
+			return rig.Tx{}, false
+		}
+		w.delisted = append([]htlctypes.AssetParam{}, st.params.AssetParams...)
+	}
+	acc, ok := w.pickAcc()
+	if !ok {
+		return rig.Tx{}, false
+	}
+	for _, x := range st.params.AssetParams {
+		w.touched[x.Denom] = true
 	}
 	for _, x := range p.AssetParams {
 		w.touched[x.Denom] = true
